@@ -142,6 +142,8 @@ pub enum Recipe {
     Oversize { authentic: bool, excess: u8 },
     /// JoinAccept for the pending JoinRequest
     JoinAccept { dl_settings: u8, rx_delay: u8, cflist: Option<RefCfList>, wrong_key: bool, stale_nonce: bool, flip_bit: Option<u16>, dev_addr: u32, net_id: u32, join_nonce: u32 },
+    /// authentic frame whose length is exactly the largest the window's data rate allows (M + 5)
+    MaxFit { confirmed: bool },
     Random(Vec<u8>),
     /// exact bytes
     Bytes(Vec<u8>),
@@ -172,6 +174,7 @@ impl Recipe {
                 };
                 json!({"join_accept": {"dl_settings": dl_settings, "rx_delay": rx_delay, "cflist": c, "wrong_key": wrong_key, "stale_nonce": stale_nonce, "flip_bit": flip_bit, "dev_addr": dev_addr, "net_id": net_id, "join_nonce": join_nonce}})
             }
+            Recipe::MaxFit { confirmed } => json!({"max_fit": confirmed}),
             Recipe::Random(b) => json!({"random": hex(b)}),
             Recipe::Bytes(b) => json!({"bytes": hex(b)}),
         }
@@ -215,6 +218,9 @@ impl Recipe {
             };
             return Recipe::JoinAccept { dl_settings: u(&o["dl_settings"]) as u8, rx_delay: u(&o["rx_delay"]) as u8, cflist, wrong_key: o["wrong_key"].as_bool().unwrap_or(false), stale_nonce: o["stale_nonce"].as_bool().unwrap_or(false),
                 flip_bit: o["flip_bit"].as_u64().map(|b| b as u16), dev_addr: u(&o["dev_addr"]) as u32, net_id: u(&o["net_id"]) as u32, join_nonce: u(&o["join_nonce"]) as u32 };
+        }
+        if let Some(o) = v.get("max_fit") {
+            return Recipe::MaxFit { confirmed: o.as_bool().unwrap_or(false) };
         }
         if let Some(o) = v.get("random") {
             return Recipe::Random(unhex(o.as_str().unwrap_or("")));
@@ -263,6 +269,8 @@ pub enum Verdict {
     JoinAccept { desc: JoinAcceptDesc, nwk: [u8; 16], app: [u8; 16] },
     /// structurally a data frame but longer than the window's data rate allows
     Oversize,
+    /// length between the admissible maxima of different RP002 revisions: not judged
+    SizeDontCare,
     Reject(&'static str),
 }
 
@@ -280,8 +288,10 @@ impl Net {
             .collect()
     }
 
-    /// Builds the bytes of a recipe. `max_payload`: M of the window (for Oversize).
-    pub fn build(&mut self, r: &Recipe, max_payload: u8) -> Vec<u8> {
+    /// Builds the bytes of a recipe. `fit` = (smallest, largest) admissible M of the window:
+    /// Oversize frames exceed the largest, MaxFit frames have exactly the smallest.
+    pub fn build(&mut self, r: &Recipe, fit: (u8, u8)) -> Vec<u8> {
+        let max_payload = fit.1;
         let sess = self.session.clone();
         let base = |s: &NetSession, delta: i64| -> u32 {
             let last: i64 = s.last_down.map(|x| x as i64).unwrap_or(-1);
@@ -317,7 +327,7 @@ impl Net {
             }
             Recipe::BitFlip { bit, with_cmds } => {
                 let inner = if *with_cmds { Recipe::auth_cmds(1, vec![Cmd::DevStatusReq, Cmd::RxTimingSetupReq(3)]) } else { Recipe::Auth { delta: 1, confirmed: true, port: Some(7), payload_len: 5, fopts: vec![], frm_cmds: vec![], ack: false, fpending: false } };
-                let mut f = self.build(&inner, max_payload);
+                let mut f = self.build(&inner, fit);
                 if !f.is_empty() {
                     let b = (*bit as usize * (f.len() * 8)) >> 16;
                     f[b / 8] ^= 1 << (b % 8);
@@ -352,6 +362,13 @@ impl Net {
                 let d = DataDesc { ftype: FType::UnconfDown, dev_addr: addr, adr: false, adr_ack_req: false, ack: false, f_pending: false, fcnt: n, fopts: vec![], payload: RefPayload::Data { port: 5, data: self.payload_bytes(plen) } };
                 encode_data(&d, &nwk, Some(&app))
             }
+            Recipe::MaxFit { confirmed } => {
+                let Some(s) = sess else { return vec![] };
+                let total = (fit.0 as usize + 5).min(255);
+                let plen = total.saturating_sub(13);
+                let d = DataDesc { ftype: if *confirmed { FType::ConfDown } else { FType::UnconfDown }, dev_addr: s.dev_addr, adr: false, adr_ack_req: false, ack: false, f_pending: false, fcnt: base(&s, 1), fopts: vec![], payload: RefPayload::Data { port: 6, data: self.payload_bytes(plen) } };
+                encode_data(&d, &s.nwk, Some(&s.app))
+            }
             Recipe::JoinAccept { dl_settings, rx_delay, cflist, wrong_key, stale_nonce: _, flip_bit, dev_addr, net_id, join_nonce } => {
                 let d = JoinAcceptDesc { join_nonce: *join_nonce & 0xFFFFFF, net_id: *net_id & 0xFFFFFF, dev_addr: *dev_addr, dl_settings: *dl_settings, rx_delay: *rx_delay, cflist: cflist.clone() };
                 let key = if *wrong_key { [0x77; 16] } else { self.app_key };
@@ -368,7 +385,7 @@ impl Net {
 
     /// Reference decision for a frame delivered while a session exists (data) or a join is pending.
     /// `joining`: the device has a JoinRequest in flight (OTAA state).
-    pub fn judge(&self, frame: &[u8], max_payload: u8, joining: bool) -> Verdict {
+    pub fn judge(&self, frame: &[u8], fit: (u8, u8), joining: bool) -> Verdict {
         if joining {
             let Ok(clear) = join_accept_clear(frame, &self.app_key) else { return Verdict::Reject("not a JoinAccept") };
             if !join_accept_clear_mic_ok(&clear, &self.app_key) {
@@ -382,8 +399,11 @@ impl Net {
         }
         let Some(s) = &self.session else { return Verdict::Reject("no session") };
         let Ok(v) = decode_data(frame) else { return Verdict::Reject("structure") };
-        if frame.len() > max_payload as usize + 5 {
+        if frame.len() > fit.1 as usize + 5 {
             return Verdict::Oversize;
+        }
+        if frame.len() > fit.0 as usize + 5 {
+            return Verdict::SizeDontCare;
         }
         // unique N == wire (mod 2^16) with last < N <= last + 16384 and N <= 2^32 - 1
         let n = fresh_counter(s.last_down, v.fcnt16);
